@@ -746,10 +746,61 @@ func c11ListenerCloseFails(r *Result) {
 	}
 }
 
+// c11SlowListenerClose: a listener whose Close wakes the blocked Accept at once and itself returns only a little later (it has
+// cleaning up to do). Whatever order Shutdown does its steps in, Serve - woken by the listener's error - returns nil, not that
+// error: "Serve returns nil" after Shutdown. With and without an open session.
+func c11SlowListenerClose(r *Result) {
+	for _, withSession := range []bool{false, true} {
+		for _, delay := range []time.Duration{30 * time.Millisecond, 150 * time.Millisecond} {
+			key := fmt.Sprintf("Shutdown while Serve is blocked in Accept, on a listener whose Close wakes Accept at once and returns %v later (open session: %v)", delay, withSession)
+			r.eval(key, true)
+			s := &kmip.Server{}
+			l := rec.NewListener()
+			l.CloseDelay = delay
+			var cc *rec.MemConn
+			if withSession {
+				var sc *rec.MemConn
+				sc, cc = rec.Pipe()
+				l.Push(rec.AcceptStep{Conn: rec.NewConn(sc, 1)})
+			}
+			init := make(chan struct{})
+			ret := make(chan error, 1)
+			go func() { ret <- s.Serve(l, init) }()
+			<-init
+			waitFor(func() bool { return l.Pending() == 0 }, 2*time.Second)
+			time.Sleep(10 * time.Millisecond) // Serve is back in Accept
+			ctx, cancel := context.WithTimeout(context.Background(), 5*time.Second)
+			sdc := make(chan error, 1)
+			go func() { sdc <- s.Shutdown(ctx) }()
+			var serveErr error
+			select {
+			case serveErr = <-ret:
+			case <-time.After(4 * time.Second):
+				serveErr = fmt.Errorf("Serve did not return")
+			}
+			if cc != nil {
+				cc.Close()
+			}
+			var sdErr error
+			select {
+			case sdErr = <-sdc:
+			case <-time.After(6 * time.Second):
+				sdErr = fmt.Errorf("Shutdown did not return")
+			}
+			cancel()
+			if serveErr != nil || sdErr != nil {
+				r.find(Finding{Kind: "violation", What: "after Shutdown, Serve returned the listener's error (or one of the two did not return nil)", Input: key, Expect: "Serve nil, Shutdown nil", Actual: fmt.Sprintf("Serve %v, Shutdown %v", serveErr, sdErr)})
+			}
+			r.Stats["slow-listener-close-scenarios"]++
+		}
+	}
+}
+
 func runC11(r *Result, d *drv.Driver, tier string, seed int64, replay string) {
 	c11CallbackInProgress(r)
 	c11Pipelined(r)
 	c11ListenerCloseFails(r)
+	c11SlowListenerClose(r)
 	c11ShutdownFirst(r, d)
 	c11AfterServeFailed(r)
 	c11HandshakeFailure(r)
